@@ -214,8 +214,9 @@ SO3Base<_Derived>::log(OptJacobianRef J_t_m) const
   }
   else
   {
-    // small-angle approximation
-    log_coeff = Scalar(2.0);
+    // small-angle approximation,
+    // the sign follows the hemisphere of the quaternion (q and -q are the same rotation)
+    log_coeff = (w() < Scalar(0.0)) ? Scalar(-2.0) : Scalar(2.0);
   }
 
   tan = Tangent(coeffs().template head<3>() * log_coeff);
